@@ -140,6 +140,19 @@ def run_parallel(jobs, timeout):
     return results
 
 
+# Half of the workers run in an environment that names a locale which is not installed (a forwarded LANG on a minimal node): the library
+# must not depend on it. Replays try both environments, so a failure found there reproduces.
+ODD_ENV = {"LANG": "xx_XX.UTF-8", "LC_ALL": "xx_XX.UTF-8"}
+
+
+def _replay_envs():
+    e0 = dict(os.environ)
+    e0.pop("LC_ALL", None)
+    e1 = dict(os.environ)
+    e1.update(ODD_ENV)
+    return [e0, e1]
+
+
 def _job_reported_violation(j):
     try:
         st = json.load(open(j["out"]))
@@ -199,9 +212,9 @@ def run_check(chk, tier, seed, replay=None):
     bt = build(variants, bins)
     if replay:
         rcs = []
-        for argv in chk["replay_argv"](replay):
+        for argv, env in [(a, e) for a in chk["replay_argv"](replay) for e in _replay_envs()]:
             try:
-                r = subprocess.run(argv, cwd=ROOT, stdout=subprocess.DEVNULL, stderr=subprocess.PIPE, text=True, timeout=600, preexec_fn=_limits_for(argv))
+                r = subprocess.run(argv, cwd=ROOT, stdout=subprocess.DEVNULL, stderr=subprocess.PIPE, text=True, timeout=600, preexec_fn=_limits_for(argv), env=env)
                 sys.stderr.write(r.stderr[-3000:])
                 rcs.append(r.returncode)
             except subprocess.TimeoutExpired:
@@ -229,9 +242,9 @@ def run_check(chk, tier, seed, replay=None):
         for fn in sorted(os.listdir(rg)):
             f = os.path.join(rg, fn)
             n_regress += 1
-            for argv in chk["replay_argv"](f):
+            for argv, env in [(a, e) for a in chk["replay_argv"](f) for e in _replay_envs()]:
                 try:
-                    r = subprocess.run(argv, cwd=ROOT, stdout=subprocess.DEVNULL, stderr=subprocess.DEVNULL, timeout=300, preexec_fn=_limits_for(argv))
+                    r = subprocess.run(argv, cwd=ROOT, stdout=subprocess.DEVNULL, stderr=subprocess.DEVNULL, timeout=300, preexec_fn=_limits_for(argv), env=env)
                     failed_again = r.returncode not in (0, 3)      # 3 = only a known-finding cell deviates, which the main run accounts for
                 except subprocess.TimeoutExpired:
                     failed_again = True
@@ -240,6 +253,9 @@ def run_check(chk, tier, seed, replay=None):
                     break
     jobs = chk["workers"](tier, seed, work)
     budget = chk.get("timeout", {}).get(tier, 1500)
+    for i, j in enumerate(jobs):
+        if i % 2 == 1:
+            j.setdefault("env", {}).update(ODD_ENV)
     results = run_parallel(jobs, budget)
     timeouts = [j for j, rc in results if rc == "timeout"]
     crashes = [(j, rc) for j, rc in results if rc not in (0, 1, "timeout")]
@@ -298,9 +314,9 @@ def run_check(chk, tier, seed, replay=None):
         ok = 0
         for _ in range(3):
             bad = False
-            for argv in chk["replay_argv"](dest):
+            for argv, env in [(a, e) for a in chk["replay_argv"](dest) for e in _replay_envs()]:
                 try:
-                    r = subprocess.run(argv, cwd=ROOT, stdout=subprocess.DEVNULL, stderr=subprocess.DEVNULL, timeout=300, preexec_fn=_limits_for(argv))
+                    r = subprocess.run(argv, cwd=ROOT, stdout=subprocess.DEVNULL, stderr=subprocess.DEVNULL, timeout=300, preexec_fn=_limits_for(argv), env=env)
                     if r.returncode != 0:
                         bad = True
                 except subprocess.TimeoutExpired:
